@@ -286,15 +286,26 @@ def run_history(ctx, seed):
                 pname = type(p).__name__ if p is not None else '?'
                 where = 'conn %d (%s of %s, v%d) still open after cluster.shutdown() and drain' % (c.sim_id, c.sim_creator, pname, proto)
                 installed = p is not None and (getattr(p, '_connection', None) is c or c in (getattr(p, '_connections', None) or []))
-                if pname == 'HostConnection' and c.sim_id in pw.trashed and not installed:
-                    viol.append(('hostconnection-shutdown-never-closes-trash', where + ': it was in the pool\'s _trash when the pool shut down'))
-                elif pname == 'HostConnection' and installed and c.sim_creator == 'pool-replace' and p.is_shutdown:
+                late = pw.installed_after_shutdown(c)
+                if pname == 'HostConnection' and c.sim_id in pw.pool_rec(p)['trash_at_shutdown'] and not installed:
+                    viol.append(('hostconnection-shutdown-never-closes-trash', where + ': it was in the pool\'s _trash when shutdown() was called'))
+                elif pname == 'HostConnection' and installed and late and c.sim_creator == 'pool-replace' and p.is_shutdown:
                     viol.append(('replacement-installed-after-shutdown-left-open', where + ': _replace finished connecting after shutdown() and installed it'))
-                elif pname == 'HostConnectionPool' and installed and c.sim_creator in ('pool-replace', 'pool-grow') and p.is_shutdown:
+                elif pname == 'HostConnectionPool' and installed and late and c.sim_creator in ('pool-replace', 'pool-grow') and p.is_shutdown:
                     viol.append(('pool-connection-added-after-shutdown-left-open', where + ': _add_conn_if_under_max finished connecting after shutdown() and added it'))
+                elif pname == 'HostConnection' and not installed and c.sim_creator == 'pool-replace' and pw.duplicate_replacements(p):
+                    viol.append(('duplicate-replacement-leaks-superseded-connection', where + ': borrow_connection asked twice for a replacement of conn %s '
+                                 '(stale `conn` read before the first replacement finished); the second _replace overwrote _connection without closing it' % (
+                                     pw.duplicate_replacements(p),)))
+                elif pname == 'HostConnection' and not installed and any(
+                        owner_of(x) is p and x.sim_id in pw.trashed and x.signaled_error and x.sim_id < c.sim_id for x in net.conns):
+                    x = [x for x in net.conns if owner_of(x) is p and x.sim_id in pw.trashed and x.signaled_error and x.sim_id < c.sim_id][0]
+                    viol.append(('closed-replaced-connection-returned-drops-live-connection', where + ': conn %d had already been replaced (it was in _trash) when it was '
+                                 'returned closed/defunct (%s); return_connection took that for a failure of the pool\'s connection and dropped the live one without '
+                                 'closing it' % (x.sim_id, 'stale return by _execute_after_prepare' if x.sim_id in stale_x else 'the trashed connection failed')))
                 else:
-                    viol.append(('connection-left-open-after-shutdown', where + ' (installed=%s, trashed=%s, pool shutdown=%s)' % (
-                        installed, c.sim_id in pw.trashed, getattr(p, 'is_shutdown', None))))
+                    viol.append(('connection-left-open-after-shutdown', where + ' (installed=%s, trashed=%s, pool shutdown=%s, installed after shutdown() was called=%s)' % (
+                        installed, c.sim_id in pw.trashed, getattr(p, 'is_shutdown', None), late)))
             info['census'] = census
         harness += pw.harness_errors()[len(harness):]
     info.update({'conns': len(net.conns), 'online_checks': pw.checks[0], 'requests': uid[0],
